@@ -81,11 +81,18 @@ class Scenario:
         self.hold = None      # {"job", "attempt", "syncs", "seen", "event", "point"}: that attempt waits until `syncs` recoveries
                               # synchronised; point "command" = before the command completes, "output" = after the command
                               # ended, before its outputs are collected and put
+        self.last = None      # {"jobs": set, "prefix": str, "need": int, "seen": int, "event"}: failing first attempts of these jobs
+                              # wait until `need` jobs whose name starts with prefix have completed (they fail LAST)
         self.late = None      # {"jobs": set, "event": Event}: failing first attempts that fail only once the held job
                               # reached its hold point (so that their recoveries synchronise inside that window)
 
     def ev(self, *e):
         self.trace.append(list(e))
+        ls = self.last
+        if ls is not None and e[0] == "done" and e[1].startswith(ls["prefix"]) and e[1] not in ls["jobs"]:
+            ls["seen"] += 1
+            if ls["seen"] >= ls["need"]:
+                ls["event"].set()
         h = self.hold
         if h is not None and e[0] == "sync-end":
             h["seen"] += 1
@@ -247,6 +254,12 @@ class VCommand(Command):
                 b["event"].set()
             else:
                 await b["event"].wait()
+        ls = SC.last
+        if kind is not None and ls is not None and job.name in ls["jobs"] and n == 1:
+            try:
+                await asyncio.wait_for(ls["event"].wait(), 30)
+            except asyncio.TimeoutError:
+                SC.ev("last-timeout")
         lt = SC.late
         if kind is not None and lt is not None and job.name in lt["jobs"] and n == 1:
             try:
@@ -658,6 +671,9 @@ async def _run(case, hooks=None):
         SC.hold = {"job": case["hold"]["job"], "attempt": case["hold"]["attempt"], "syncs": case["hold"]["syncs"],
                    "seen": 0, "event": asyncio.Event(), "point": case["hold"].get("point", "command"),
                    "timeout": case["hold"].get("timeout", 30)}
+    if case.get("last"):
+        SC.last = {"jobs": set(case["last"]["jobs"]), "prefix": case["last"]["prefix"], "need": case["last"]["need"],
+                   "seen": 0, "event": asyncio.Event()}
     if case.get("late"):
         SC.late = {"jobs": set(case["late"]), "event": asyncio.Event()}
     seedfile = os.path.join(base, "seed.txt")
